@@ -237,6 +237,36 @@ def analyse():
         obligations.append(dict(name=name, function='%s:%s' % (mod, qual), kind='frame', status=status, solver='effect-analysis', ms=0,
                                 reason=why, lineno=line, size=0, model=None, source=src.strip()[:160]))
 
+    # names that are written somewhere in the package: root of a store / del / mutating-method call, or rebound through `global`
+    written = set()
+    for mod_ in MODULES:
+        path_ = os.path.join(REPO, mod_)
+        if not os.path.exists(path_):
+            continue
+        try:
+            tree_ = ast.parse(open(path_).read())
+        except SyntaxError:
+            continue
+        for n_ in ast.walk(tree_):
+            tg_ = []
+            if isinstance(n_, ast.Assign):
+                tg_ = list(n_.targets)
+            elif isinstance(n_, (ast.AugAssign, ast.AnnAssign)):
+                tg_ = [n_.target]
+            elif isinstance(n_, ast.Delete):
+                tg_ = list(n_.targets)
+            for t_ in tg_:
+                for e_ in (t_.elts if isinstance(t_, (ast.Tuple, ast.List)) else [t_]):
+                    if isinstance(e_, (ast.Attribute, ast.Subscript)):
+                        r_ = root_name(e_)
+                        if r_:
+                            written.add(r_)
+            if isinstance(n_, ast.Call) and isinstance(n_.func, ast.Attribute) and n_.func.attr in MUTATORS:
+                r_ = root_name(n_.func.value)
+                if r_:
+                    written.add(r_)
+            if isinstance(n_, ast.Global):
+                written.update(n_.names)
     for mod in MODULES:
         path = os.path.join(REPO, mod)
         if not os.path.exists(path):
@@ -273,9 +303,13 @@ def analyse():
                 if mutable:
                     if t.id in gframe:
                         ob('module-state', mod, '', n.lineno, t.id, 'discharged', 'declared frame location: ' + gframe[t.id])
+                    elif t.id not in written:
+                        # a table nobody writes to is a constant, not state (adding a lookup table is not a violation); any
+                        # later write to it is a mutation site of a non-local object and fails there
+                        ob('module-state', mod, '', n.lineno, t.id, 'discharged', 'never written anywhere in the package: a constant table')
                     else:
                         ob('module-state', mod, '', n.lineno, t.id, 'refuted',
-                           'module-level mutable object outside the declared frame', line_of(n))
+                           'module-level mutable object outside the declared frame that is written to', line_of(n))
         for qual, fn, cls in functions(tree):
             facts = FnFacts(fn)
             # memoising decorators
